@@ -205,7 +205,7 @@ CHECKS = {
              "accepted by the reader's loop (dec_fold: exact `formal` dictionary and `other_attributes` list), and the resulting add_attributes "
              "arguments rebuild, in any manager state, a record with exactly the stored (attribute URI, ==-value) pairs (via C09C loop_args); "
              "non-vacuity shown on a concrete heap and record. Tied to /repo by three channels on every generated document: writer tree, reader on the same "
-             "text, strict end-to-end comparison for all json.dump option sets.",
+             "text, strict end-to-end comparison for all json.dump option sets. Container level (Props/C01C): c01_container_elems - the dict encode_json_container builds, walked as the reader walks it, holds exactly one record object per record under its kind and identifier (arrays for repeated identifiers, _:idN for anonymous records): nothing lost, nothing repeated.",
         note=A_COMMON + " Container level (anonymous-id allocation, arrays for repeated identifiers, prefix blocks) is mirrored in the model "
              "and compared, not yet proved. Known finding C01-1: names not readable in their bundle's scope (C03-1) change URI. "
              "A-JSONTEXT assumed; of A-LEX only float(repr(x)) = x remains an assumption: int(str(n)) = n is core's toInt?_repr and "
